@@ -155,6 +155,11 @@ class Run:
                 self.known_hit.append((key, kf))
                 print(f"KNOWN-FINDING: property={self.pid} {kf.get('key', what)}")
             return False
+        self._per_oid = getattr(self, "_per_oid", {})
+        self._per_oid[oid] = self._per_oid.get(oid, 0) + 1
+        if self._per_oid[oid] > 3:   # same obligation, further inputs: counted, not printed again
+            self.violations.append({"obligation": oid, "function": fn, "what": what, "replay": None})
+            return True
         self._replay_n += 1
         d = os.path.join(VERIF, "replays", self.pid)
         os.makedirs(d, exist_ok=True)
